@@ -407,6 +407,37 @@ def failed_obligation_keys(meta, f):
     return keys
 
 
+def bounded_standin(pid, unit):
+    """twin search for a unit Verus cannot process; -> pseudo-failure dict with the counterexample, or None"""
+    try:
+        import twin
+    except ImportError:
+        return None
+    spec = X.parse_spec(unit_spec(unit))
+    sem = [p for p in spec.serves if p != "C04"]
+    fam = twin.FAMILY.get(unit)
+    if fam is None:
+        return None
+    if twin.build():
+        return None
+    rc, rows, stderr = twin.run([fam])
+    for r in rows:
+        if r.get("panic"):
+            if pid != "C04":
+                continue
+            return dict(id="%s/bounded-standin/%s:panic" % (unit, fam), kind="bounded", fn=None, clause=None, unit=unit,
+                        message="the real code panicked while the twin enumerated its small universe (bounded stand-in; Verus could not process the unit)",
+                        rendered=stderr[-1500:], where={}, found=dict(family=fam, fn="*", panic=True, replay_args=[fam]))
+        if r.get("failures") and pid in sem:
+            first = r["first"]
+            return dict(id="%s/bounded-standin/%s.%s" % (unit, r["family"], r["fn"]), kind="bounded", fn=r["fn"], clause=None, unit=unit,
+                        message="bounded stand-in (twin, small universe; Verus could not process the unit on this tree): the real code violates the contract's reading on a concrete input",
+                        rendered="input: %s\nobserved: %s\nrequired: %s" % (first["input"], first["observed"], first["required"]), where={},
+                        found=dict(family=r["family"], fn=r["fn"], case=first["case"], input=first["input"], observed=first["observed"],
+                                   required=first["required"], replay_args=[r["family"], "--fn", r["fn"], "--case", str(first["case"])]))
+    return None
+
+
 def check(pid, tier, seed, rebaseline=False):
     t0 = time.time()
     units = available_units(pid)
@@ -436,12 +467,21 @@ def check(pid, tier, seed, rebaseline=False):
     seen_fail_ids = set()
     for u in units:
         r = results[u]
-        if r["status"] in ("extract-error",):
-            undecided.append("%s: extraction failed: %s" % (u, r["detail"]))
-            continue
-        if r["status"] in ("tool-error", "timeout"):
-            te = r.get("tool_errors") or [dict(message=r["res"]["stderr"][-1500:])]
-            undecided.append("%s: verus could not process the extracted code: %s" % (u, te[0]["message"][:300]))
+        if r["status"] in ("extract-error", "tool-error", "timeout"):
+            if r["status"] == "extract-error":
+                why = "%s: extraction failed: %s" % (u, r["detail"])
+            else:
+                te = r.get("tool_errors") or [dict(message=r["res"]["stderr"][-1500:])]
+                why = "%s: verus could not process the extracted code: %s" % (u, te[0]["message"][:300])
+            # The unit is out of the verifier's reach on this tree. Bounded stand-in (labelled as such):
+            # the executable twin enumerates its small universe against the real code; only a concrete
+            # failing input turns this into a violation, otherwise the unit stays undecided.
+            bs = bounded_standin(pid, u)
+            if bs is not None:
+                violations.append(bs)
+                notes.append(why + " -> bounded stand-in (twin) used instead")
+            else:
+                undecided.append(why + " (bounded stand-in found no failing input in its small universe)")
             continue
         meta = r["meta"]
         for k, v in meta["rewrites"].items():
@@ -546,7 +586,10 @@ def check(pid, tier, seed, rebaseline=False):
     if violations:
         import replay as RP
         for f in violations:
-            path, found = RP.make_replay(pid, f, results[f["unit"]])
+            if f.get("kind") == "bounded":
+                path, found = RP.make_bounded_replay(pid, f), True
+            else:
+                path, found = RP.make_replay(pid, f, results[f["unit"]])
             print("VIOLATION property=%s replay=%s%s" % (pid, path, "" if found else " no-failing-input-found"))
             print("  obligation: %s" % f["id"])
             print("  %s" % f["message"])
